@@ -197,6 +197,40 @@ harness!(c07_pp_t, 11, |s| { ecrts19_body(s, 2, SupKind::Periodic, &ET); });
 harness!(c07_chain_t, 11, |s| { ecrts19_body(s, 3, SupKind::Periodic, &ET); });
 harness!(c07_timer_dedicated_t, 11, |s| { ecrts19_body(s, 1, SupKind::Dedicated, &ET); });
 
+// polling-point callback whose own cost model is a two-frame Multiframe (the cheap frame may
+// come second): `least_wcet_in_interval` then depends on how many jobs the interval holds
+harness!(c07_pp_multiframe_q, 8, |s| {
+    use response_time_analysis::wcet::Multiframe;
+    let sup = any_sup(s, SupKind::Periodic, 1);
+    let curve = SymCurve::any(s, 2, 3);
+    let f0 = s.from(1, 1);
+    let f1 = s.from(1, 1);
+    let int = any_src1(s, 2, 3, 1);
+    let limit = s.from(1, 7);
+    assume(limit <= 6);
+    let mut v = Vec::with_capacity(4);
+    v.push(Service::from(f0));
+    v.push(Service::from(f1));
+    let own_rbf = RBF::new(curve, Multiframe::new(v));
+    let int_rbf = mk_rbf(&int);
+    let got = with_supply!(sup, |x| ros2::rta_polling_point_callback(&x, &own_rbf, &int_rbf, Duration::from(limit)));
+    // reference: at most two jobs of the callback ever arrive
+    let cost = |n: u64| if n == 0 { 0 } else if n == 1 { f0 } else { f0 + f1 };
+    let least = |n: u64| if n == 0 { 0 } else if n == 1 { f0 } else if f0 < f1 { f0 } else { f1 };
+    let own = |d: u64| cost(curve.na(d));
+    let want = spec::ecrts19(
+        &sup,
+        limit,
+        |d| own(d) + int.rbf(d),
+        |a, r| {
+            let w = least(curve.na(a + r));
+            own(a + 1) + int.rbf(spec::interference_interval(a, r, w))
+        },
+    );
+    assert!(ok_value(&got) == want);
+    cover!(matches!(want, Some(r) if r >= 4) && f1 < f0, "Ok(R) with R >= 4, second frame cheaper");
+});
+
 // the two forms of the specification's supply-bound function agree
 harness!(c07_spec_sbf_forms_agree, 20, |s| {
     let sup = any_sup(s, SupKind::Constrained, 3);
@@ -356,7 +390,7 @@ pub fn register(t: &mut Table) {
     reg!(t;
         c07_event_source_q, c07_timer_q, c07_pp_q, c07_chain_q,
         c07_event_source_t, c07_timer_t, c07_pp_t, c07_chain_t, c07_timer_dedicated_t,
-        c07_spec_sbf_forms_agree,
+        c07_spec_sbf_forms_agree, c07_pp_multiframe_q,
         c07_rr_single_q, c07_rr_chain_q, c07_rr_single_t, c07_rr_chain_t, c07_rr_single_dedicated_t,
         c07_bw_single_t, c07_bw_chain_t,
     );
